@@ -20,6 +20,7 @@ mod c15;
 mod c16;
 mod c17;
 mod c18;
+mod c19;
 mod c20;
 mod hostile;
 mod mockterm;
@@ -120,6 +121,7 @@ fn main() {
         "C16" => dispatch(c16::C16, &mode),
         "C17" => dispatch(c17::C17, &mode),
         "C18" => dispatch(c18::C18, &mode),
+        "C19" => dispatch(c19::C19, &mode),
         "C20" => dispatch(c20::C20, &mode),
         _ => {
             eprintln!("unknown property id {id:?}");
